@@ -141,7 +141,21 @@ static void case_td(Rng & rng, TD L, int mode, const std::string & tier, const P
         for (size_t s = 0; s < S; ++s) { long am; init.row(s).maxCoeff(&am); pol(s, am) = 1.0; }
     } else if (mode == 2) {
         init = randTable(rng, S, A, 6);
+    } else if (mode == 3) {
+        // learners without a table setter (Hysteretic, SARSA; also QLearning/DynaQ through their update only): a layered
+        // deterministic MDP (every action leads to a later state, the last state is absorbing and pays 0) is solved EXACTLY by one
+        // backward sweep with step size 1; the sweep is part of the sequence, the steps after it are clause-2 steps
+        if (p.ugly) { p.g = 0.5; p.ugly = false; }
+        if (S < 2) S = p.S = 2;
+        next.assign(S, std::vector<size_t>(A));
+        R = randTable(rng, S, A, 3);
+        for (size_t s = 0; s + 1 < S; ++s) for (size_t a = 0; a < A; ++a) next[s][a] = (size_t)rng.range((long)s + 1, (long)S - 1);
+        for (size_t a = 0; a < A; ++a) { next[S - 1][a] = S - 1; R(S - 1, a) = 0.0; }
+        p.alpha = 1.0; p.beta = 1.0;
+        pol = AI::Matrix2D::Constant(S, A, 1.0 / A);
+        init = M::makeQFunction(S, A);
     }
+    const int k0 = mode == 3 ? (int)((S - 1) * A) : 0;
     M::Policy policy(pol);
     M::QFunction ext = init;                       // ExpectedSARSA works on a caller-owned table
     std::unique_ptr<M::QLearning> ql; std::unique_ptr<M::HystereticQLearning> hy; std::unique_ptr<M::SARSA> sa;
@@ -159,7 +173,8 @@ static void case_td(Rng & rng, TD L, int mode, const std::string & tier, const P
     if (L == ESARSA_) putTable(l, pol);
     putTable(l, init);
     if (L == DQ_) { M::QFunction c = init * 2; putTable(l, c); }
-    int n = p.maxSteps;
+    int n = p.maxSteps + k0;
+    if (mode == 3) l << k0;
     l << n;
     ExpGen gen(rng, S, A);
     double alpha = p.alpha, beta = p.beta;
@@ -169,8 +184,14 @@ static void case_td(Rng & rng, TD L, int mode, const std::string & tier, const P
             e.s1 = next[e.s][e.a]; e.r = R(e.s, e.a);
             long am; init.row(e.s1).maxCoeff(&am); e.a1 = (size_t)am;
         }
+        if (mode == 3) {
+            if (k < k0) { e.s = S - 2 - (size_t)k / A; e.a = (size_t)k % A; }      // backward sweep
+            e.s1 = next[e.s][e.a]; e.r = R(e.s, e.a);
+            const M::QFunction & cur = L == HYST_ ? hy->getQFunction() : L == SARSA_ ? sa->getQFunction() : L == QL_ ? ql->getQFunction() : dy->getQFunction();
+            long am; cur.row(e.s1).maxCoeff(&am); e.a1 = (size_t)am;                  // greedy next action (SARSA)
+        }
         // step sizes may be changed between steps through the public setters
-        if (rng.coin(1, 5)) {
+        if (rng.coin(1, 5) && !(mode == 3 && k < k0)) {
             alpha = p.ugly ? pickD(rng, {0.1, 0.3, 1.0, 0.7}) : pickD(rng, {1.0, 0.5, 0.25, 0.125});
             beta = p.ugly ? pickD(rng, {0.0, 0.2, 1.0}) : pickD(rng, {0.0, 0.5, 0.25});
             switch (L) {
@@ -492,7 +513,8 @@ void verif::verif_case(Rng & rng, long idx, const std::string & tier) {
     else if (k == 12) case_td(rng, QL_, 1, tier);                          // fixed point at Q*
     else if (k == 13) case_td(rng, DQ_, 1, tier);
     else if (k == 14) case_td(rng, ESARSA_, 1, tier);
-    else if (k == 15) case_td(rng, rng.coin() ? QL_ : (rng.coin() ? DQ_ : ESARSA_), 2, tier);   // arbitrary start
+    else if (k == 15 && rng.coin()) case_td(rng, rng.coin() ? QL_ : (rng.coin() ? DQ_ : ESARSA_), 2, tier);   // arbitrary start
+    else if (k == 15) case_td(rng, rng.pick(std::vector<TD>{HYST_, SARSA_, QL_, DYNA_}), 3, tier);         // Q* reached through the updates
     else if (k < 25) case_tr(rng, (TR)(k - 16), tier);
     else if (k < 27) case_tr(rng, (TR)rng.below(9), tier);
     else if (k == 27) case_tr(rng, (TR)rng.below(5), tier, nullptr, true, true);   // control learners / SARSA(lambda) at Q*
